@@ -66,11 +66,11 @@ Dom == [
     mpr |-> {"none", "one", "two"},
     mprLL |-> BOOLEAN,               \* 32-byte next hop (global + link-local)
     mpu |-> {"none", "one", "two", "eor"},
-    fault |-> {"none"} ]
+    fault |-> {<<"none", "none">>} ]
 
 Base == [asn4 |-> TRUE, addpath |-> TRUE, ibgp |-> FALSE, extnh |-> FALSE, mpr4 |-> FALSE, origin |-> 0, path |-> "P2", as4 |-> "none", med |-> "ten", pref |-> "none",
          atomic |-> FALSE, aggr |-> FALSE, comm |-> "one", orig |-> FALSE, unkT |-> "none", unkNT |-> FALSE, ext |-> FALSE,
-         partial |-> FALSE, rev |-> FALSE, nlri |-> "one", wd |-> "none", mpr |-> "none", mprLL |-> FALSE, mpu |-> "none", fault |-> "none"]
+         partial |-> FALSE, rev |-> FALSE, nlri |-> "one", wd |-> "none", mpr |-> "none", mprLL |-> FALSE, mpu |-> "none", fault |-> <<"none", "none">>]
 \* further starting points, so that the neighbourhood explored also covers sessions and shapes three changes away
 Bases == { Base,
            [Base EXCEPT !.extnh = TRUE, !.mpr = "one", !.mpr4 = TRUE],                          \* RFC 8950
@@ -122,7 +122,82 @@ Reverse(s) == [i \in 1..Len(s) |-> s[Len(s) + 1 - i]]
 RECURSIVE EncItems(_, _)
 EncItems(items, ext) == IF items = <<>> THEN <<>> ELSE Attr(Head(items).flags, Head(items).code, Head(items).val, ext) \o EncItems(Tail(items), ext)
 
-AttrBytes(u) == EncItems(IF u.rev THEN Reverse(Items(u)) ELSE Items(u), u.ext)
+\* ---- one malformed attribute (C08) --------------------------------------------------------
+\* u.fault = <<"none", "none">> or <<attribute name, form>>, form in
+\*   "len"     the value is one byte short (one byte long for the empty ATOMIC_AGGREGATE; cut in the next hop for MP_REACH)
+\*   "zero"    the value is empty although the attribute does not allow it
+\*   "flags"   Optional / Transitive bits contradict the attribute's definition
+\*   "value"   ORIGIN 5, AS path segment type 7
+\*   "dup"     the attribute occurs a second time (with another value)
+\*   "overrun" the last attribute declares more bytes than the attribute block holds
+\*   "nhlen"   MP_REACH_NLRI whose Next Hop Length (24) is not one its family allows
+FaultNames == {"origin", "aspath", "nexthop", "med", "pref", "atomic", "aggr", "comm", "originator", "cluster", "as4path", "mpreach", "mpunreach"}
+FaultForms == {"len", "zero", "flags", "value", "dup", "overrun", "nhlen"}
+HasItem(u, n) == \E i \in 1..Len(Items(u)) : Items(u)[i].name = n
+Applicable(u, f) ==
+    /\ HasItem(u, f[1])
+    /\ (f[2] = "zero" => f[1] \in {"origin", "nexthop", "med", "pref", "aggr", "comm", "originator", "cluster"})
+    /\ (f[2] = "value" => f[1] \in {"origin", "aspath", "as4path"} /\ (f[1] = "aspath" => u.path # "P0"))
+    /\ (f[2] = "len" /\ f[1] = "aspath" => u.path # "P0")
+    /\ (f[2] = "flags" => f[1] \notin {"mpreach", "mpunreach"})
+    /\ (f[2] = "nhlen" => f[1] = "mpreach")
+    /\ (f[2] = "overrun" => f[1] \notin {"mpreach", "mpunreach"})
+
+WellKnown == {"origin", "aspath", "nexthop", "pref", "atomic"}
+BadFlags(it) == IF it.name \in WellKnown THEN Opt + Trans                   \* well-known marked optional
+                ELSE IF it.flags \div 64 % 2 = 1 THEN Opt                   \* optional transitive marked non-transitive
+                ELSE Opt + Trans                                            \* optional non-transitive marked transitive
+BadValue(it) == IF it.name = "origin" THEN <<5>> ELSE <<7>> \o Tail(it.val)
+Mangle(it, form) ==
+    CASE form = "len"   -> [it EXCEPT !.val = IF it.name = "atomic" THEN <<0>>
+                                              ELSE IF it.name = "mpreach" THEN Take(it.val, 10)
+                                              ELSE IF it.name = "mpunreach" THEN Take(it.val, 2)
+                                              ELSE Take(it.val, Len(it.val) - 1)]
+      [] form = "zero"  -> [it EXCEPT !.val = <<>>]
+      [] form = "nhlen" -> [it EXCEPT !.val = SubSeq(it.val, 1, 3) \o <<24>> \o NH6 \o Rep(0, 8) \o Drop(it.val, 4 + it.val[4])]
+      [] form = "flags" -> [it EXCEPT !.flags = BadFlags(it)]
+      [] form = "value" -> [it EXCEPT !.val = BadValue(it)]
+      [] OTHER -> it
+\* a second copy with another value (the first one must win)
+Other(it) == IF it.name = "origin" THEN [it EXCEPT !.val = <<(it.val[1] + 1) % 3>>]
+             ELSE IF it.name = "med" THEN [it EXCEPT !.val = B4(0, 0, 0, 99)]
+             ELSE IF it.name = "pref" THEN [it EXCEPT !.val = B4(0, 0, 0, 7)]
+             ELSE IF it.name = "nexthop" THEN [it EXCEPT !.val = B4(192, 0, 2, 99)]
+             ELSE IF it.name = "comm" THEN [it EXCEPT !.val = B4(0, 9, 0, 9)]
+             ELSE it
+RECURSIVE ApplyFault(_, _)
+ApplyFault(items, f) ==
+    IF items = <<>> THEN <<>>
+    ELSE IF Head(items).name = f[1]
+         THEN (IF f[2] = "dup" THEN <<Head(items), Other(Head(items))>> ELSE <<Mangle(Head(items), f[2])>>) \o Tail(items)
+         ELSE <<Head(items)>> \o ApplyFault(Tail(items), f)
+\* "overrun": the faulty attribute goes last and its length field says 5 more bytes than follow
+MoveLast(items, n) == SelectSeq(items, LAMBDA x : x.name # n) \o SelectSeq(items, LAMBDA x : x.name = n)
+AttrRawLen(flags, code, val, declared) == <<(flags \div 32) * 32 + (flags % 16), code, declared>> \o val
+
+FaultyItems(u) == IF u.fault[1] = "none" THEN Items(u)
+                  ELSE IF u.fault[2] = "overrun" THEN MoveLast(Items(u), u.fault[1])
+                  ELSE ApplyFault(Items(u), u.fault)
+FaultyAttrBytes(u) ==
+    LET its == IF u.rev /\ u.fault[2] \notin {"overrun", "dup"} THEN Reverse(FaultyItems(u)) ELSE FaultyItems(u) IN
+    IF u.fault[2] = "overrun"
+    THEN LET last == its[Len(its)] IN
+         EncItems(SubSeq(its, 1, Len(its) - 1), u.ext) \o AttrRawLen(last.flags, last.code, last.val, Len(last.val) + 5)
+    ELSE EncItems(its, u.ext)
+
+\* RFC 7606 section 7 (and 3, 4, 5 for the generic rules): what the receiver must do
+Action(u) ==
+    LET n == u.fault[1] form == u.fault[2]
+        internalOnly == IF u.ibgp THEN "withdraw" ELSE "discard"      \* LOCAL_PREF, ORIGINATOR_ID, CLUSTER_LIST from an external peer
+    IN CASE n \in {"mpreach", "mpunreach"} -> "reset"                     \* 7606 3.g / 5.3: the NLRI cannot be located
+         [] form = "dup" -> "first"                                       \* 7606 3.g: all but the first occurrence discarded
+         [] form = "overrun" -> "withdraw"                                \* 7606 4
+         [] n \in {"origin", "aspath", "nexthop", "med", "comm"} -> "withdraw"
+         [] n \in {"pref", "originator", "cluster"} -> internalOnly
+         [] n \in {"atomic", "aggr", "as4path"} -> "discard"
+         [] OTHER -> "withdraw"
+
+AttrBytes(u) == FaultyAttrBytes(u)
 Body(u) == EncUpdateBody(EncPrefixes(WdSets[u.wd], u.addpath), AttrBytes(u), EncPrefixes(V4Sets[u.nlri], u.addpath))
 Bytes(u) == Msg(2, Body(u))
 
